@@ -204,6 +204,7 @@ class Inliner:
             t.pop("_blk", None)
             t.pop("_blocks", None)
             if target_fn is None:
+                self._note_foreign_closure(b, t, callee, locals_, blocks)
                 continue
             if target_fn.path in self.keep:
                 continue
@@ -931,6 +932,26 @@ class Inliner:
         blocks.append({"cleanup": cleanup, "stmts": done_stmts, "term": dict(goto_t)})
         blocks[b]["term"] = {"k": "goto", "target": pre, **span, "adaptor": "lazy-collect"}
         return [pre, hdr, sw, push, done]
+
+    # library functions that run a closure argument and whose closure is either expanded, interpreted by a rule
+    # (with its effects checked there), or run lazily (then checked where the pipeline is consumed)
+    CLOSURE_TAKERS_OK = ("filter", "map", "filter_map", "inspect", "for_each", "any", "all", "find", "find_map", "position", "rposition",
+                         "take_while", "skip_while", "min_by_key", "max_by_key", "min_by", "max_by", "and_modify", "extract_if",
+                         "call_once", "call_mut", "call", "update", "unwrap_or_else", "map_or", "and_then", "is_some_and", "then")
+
+    def _note_foreign_closure(self, b, t, callee, locals_, blocks):
+        """A closure of this crate with side effects handed to library code we neither expand nor interpret."""
+        if callee is None or t.get("macro"):
+            return
+        d = callee["def"]
+        m = d.rsplit("::", 1)[-1]
+        if m in self.CLOSURE_TAKERS_OK:
+            return
+        for a in t["args"]:
+            ty = self._op_ty(a, locals_)
+            if ty is not None and ty.get("k") in ("closure", "fndef") and self.facts.fn(ty.get("closure") or ty.get("fndef") or "") is not None and self._effectful(ty):
+                self.lazy_unexpanded.append((self._cur, b, "`%s` is given a closure with side effects" % d))
+                return
 
     LAZY_CONSUMERS_OK = ("next", "for_each", "collect", "filter", "map", "filter_map", "inspect", "copied", "cloned", "by_ref", "fuse", "into_iter", "size_hint")
 
